@@ -145,7 +145,7 @@ def special_name_ok(i, x, typed):
     if not parse_total(S):
         return False
     el = parse_s(S)
-    for v in ({name: x}, {name: {}}, {}, {name: x, "other": x}):
+    for v in ({name: x}, {name: {}}, {}):
         if outcome_kind(el, v) not in ("ok", "ValidationError", "TypeError"):
             return False
     if x >= 0:
@@ -172,7 +172,7 @@ def harnesses(ctx) -> List[H]:
         hs.append(mk(f"c10_total_{name}", f"{hargs}, v: {ANY}", pre + ANYPRE, f"return total(parse_s({S}), v)", timeout=200 if name != "array_unique" else 900, group="validation",
                      tier="thorough" if name == "array_unique" else "quick", covers=f"{S} on values of every JSON type"))
         hs.append(mk(f"c10_total_msg_{name}", f"{hargs}, v: {ANY}", pre + ANYPRE, f"return total(parse_s({S}), v)", timeout=120, group="validation-messages",
-                     message_stub=False, expect="unknown", tier="quick" if name in ("numeric",) else "thorough",
+                     message_stub=False, expect="unknown", tier="thorough",
                      covers="same with real error-message formatting (repr of symbolic values realises them: can refute, rarely exhausts)"))
     hs.append(mk("c10_total__reach_reject", f"a: int, b: int, m: int, v: {ANY}", ["m > 0"] + ANYPRE,
                  "return outcome_kind(parse_s({'minimum': a, 'multipleOf': m}), v) != 'ValidationError'", kind="witness", timeout=30, group="validation"))
@@ -188,10 +188,17 @@ def harnesses(ctx) -> List[H]:
     hs.append(mk("c10_format_runlength", "n: int, i: int", ["0 <= n <= 64", "0 <= i < 8"],
                  'c = ("9", "a", "-", ":", "T", "+", ".", " ")[i]\nreturn total(parse_s({"format": "date-time"}), c * n) and total(parse_s({"format": "uuid"}), c * n) and total(parse_s({"format": "date-time"}), "2020-01-01T00:00:00." + c * n)',
                  timeout=400, group="format", covers="run-length dimension: repeated characters up to 64 (reaches the >= 20-digit dateutil overflow)"))
-    hs.append(mk("c10_format_runlength_prefixed", "p: int, n: int, i: int", ["0 <= p < 8", "0 <= n <= 40", "0 <= i < 4"],
-                 'pre = ("12:", "12:30:", "2020-01-01T00:00:", "1-", "T", "2020-", "1e", "0.")[p]\nc = ("9", "0", ".", "1")[i]\nreturn total(parse_s({"format": "date-time"}), pre + c * n) and total(parse_s({"format": "uuid"}), pre + c * n)',
-                 timeout=400, group="format", covers="run lengths up to 40 after 8 date/time-like prefixes"))
-    hs.append(mk("c10_special_property_names", "i: int, x: int, typed: bool", [f"0 <= i < {len(SPECIAL_NAMES)}"], "return special_name_ok(i, x, typed)", timeout=300, group="names",
+    hs.append(mk("c10_format_runlength_prefixed_quick", "p: int, n: int", ["0 <= p < 3", "0 <= n <= 32"],
+                 'pre = ("12:", "12:30:", "2020-01-01T00:00:")[p]\nreturn total(parse_s({"format": "date-time"}), pre + "9" * n)',
+                 timeout=200, group="format", covers="run lengths of '9' up to 32 after three time-like prefixes"))
+    hs.append(mk("c10_format_runlength_prefixed", "p: int, n: int, i: int", ["0 <= p < 8", "0 <= n <= 32", "0 <= i < 2"],
+                 'pre = ("12:", "12:30:", "2020-01-01T00:00:", "1-", "T", "2020-", "1e", "0.")[p]\nc = ("9", ".")[i]\nreturn total(parse_s({"format": "date-time"}), pre + c * n) and total(parse_s({"format": "uuid"}), pre + c * n)',
+                 timeout=600, group="format", tier="thorough", covers="run lengths up to 32 of '9' / '.' after 8 date/time-like prefixes"))
+    core = [SPECIAL_NAMES.index(n) for n in ("__dict__", "__weakref__", "__module__", "__slots__", "__class__", "__doc__", "__init__", "_dict", "properties", "default", "validators", "__annotations__")]
+    hs.append(mk("c10_special_property_names_core", "j: int, x: int", [f"0 <= j < {len(core)}"], f"return special_name_ok({core!r}[concretize_int(j, 0, {len(core) - 1})], x, True)", timeout=200, group="names",
+                 covers="the 12 most hazardous special names as property names of a model class"))
+    for typed in (True, False):
+      hs.append(mk(f"c10_special_property_names_{'typed' if typed else 'untyped'}", "i: int, x: int", [f"0 <= i < {len(SPECIAL_NAMES)}"], f"return special_name_ok(concretize_int(i, 0, {len(SPECIAL_NAMES) - 1}), x, {typed})", timeout=900, group="names", tier="thorough",
                  covers="property names that are Python-special attribute names (dunder names of plain instances, names used by the model machinery)"))
     # unhashable / nested items
     hs.append(mk("c10_unique_scalars", "u: bool, v: Union[int, str, List[Union[int, bool]]]", ["not isinstance(v, str) or len(v) <= 1", "not isinstance(v, list) or len(v) <= 3"],
@@ -216,7 +223,7 @@ def harnesses(ctx) -> List[H]:
                  timeout=300, group="parse", covers="property / required / dependency names from a pool of unusual strings (unnamed code points, controls, private use, surrogates, non-BMP, empty)"))
     hs.append(mk("c10_parse_any_char_name", "s: str, typed: bool", ["len(s) == 1"],
                  'S = {"properties": {s: {"type": "integer"}}, "required": [s, "x" + s]}\nif typed: S.update({"type": "object", "title": "T"})\nreturn parse_total(S)',
-                 timeout=120, group="parse", expect="unknown", covers="any single code point as property name (symbols are realised one per path: cannot exhaust, can refute)"))
+                 timeout=60, group="parse", expect="unknown", covers="any single code point as property name (symbols are realised one per path: cannot exhaust, can refute)"))
     hs.append(mk("c10_parse__reach_error", "s: str", ["len(s) <= 1"], 'return parse_total({"type": "object", "title": s}) and len(s) > 0', kind="witness", timeout=30))
     return hs
 
